@@ -57,7 +57,7 @@ def main():
     dst = f"/verif/refactorings/{rid}"
     os.makedirs(dst, exist_ok=True)
     for f in ("patch.diff", "notes.md"):
-        if os.path.exists(os.path.join(d, f)):
+        if os.path.exists(os.path.join(d, f)) and os.path.abspath(d) != os.path.abspath(dst):
             shutil.copy(os.path.join(d, f), os.path.join(dst, f))
     json.dump(meta, open(os.path.join(dst, "meta.json"), "w"), indent=1)
     sh("git checkout -- .", cwd=wt)
